@@ -241,6 +241,16 @@ func init() {
 			cs = append(cs, c)
 		}
 		st.Features["trace-cases"] = sizes(tier, 500, 12000) * 3
+		// anchors and classes next to bytes that are not ASCII (UTF-8 letters, Latin-1 bytes, lone continuation bytes): word
+		// characters are the ASCII letters, digits and the underscore, whatever stands in the other bytes
+		for pi, prog := range []string{"'caf' word end", "word start 'te'", "word start at least 1 letter word end", "whole word",
+			"not word start any", "at least 1 any word end '!'", "word end any", "not word end letter", "whole word '.'", "line start any word end",
+			"letter", "not letter", "upper", "lower", "digit", "at least 1 not whitespace"} {
+			for ti, text := range []string{"caf\xc3\xa9 cafe caf! ", " f\xc3\xaate te ", " d\xe9j\xe0 vu ", "\xaa a\xb5b \xff!", "na\xc3\xafve. caf\xe9.", "\xc3\x89t\xc3\xa9 te\xd6!"} {
+				st.Features["anchors-next-to-high-bytes"]++
+				cs = append(cs, Case{ID: fmt.Sprintf("hb%d.%d", pi, ti), Op: "run", Fields: []string{hx("find all " + prog), hx(text)}, Meta: map[string]string{}})
+			}
+		}
 		// texts beyond one 4096-byte block (the scan itself, not only the reader, may work block-wise)
 		cs = append(cs, bigTextCases(r, st, sizes(tier, 52, 260), "big")...)
 		return append(cs, extremeCases(st, "x")...)
